@@ -331,50 +331,52 @@ def findHeaderSectionWith (cm : Bool) (iters n : Nat) (ex : ExitCond) (fuel : Na
 /-! ### the `);` recovery scan of SDAI_Application_instance::STEPread -/
 
 /-- the inner loop `while( in.good() && c != ')' [&& !foundEnd] ) { in.get( c ); tmp += c; … }`.  With `stay` (regenerated:
-the scan stays in the record) a `'` toggles `inString` and a `;` outside a string literal is put back and ends the scan.
+the scan stays in the record) a `;` is put back and ends the scan; with `quotes` as well (the shape of fixes/C05-14) a `'`
+toggles `inString` and only a `;` outside a string literal counts.
 Returns the stream, `c`, `inString`, `foundEnd`, `len` and the steps. -/
-def recoverInner (stay : Bool) : Nat → IS → Byte → Bool → Nat → Nat → Out (IS × Byte × Bool × Bool × Nat × Nat)
+def recoverInner (stay quotes : Bool) : Nat → IS → Byte → Bool → Nat → Nat → Out (IS × Byte × Bool × Bool × Nat × Nat)
   | 0, _, _, _, _, _ => .outOfFuel
   | fuel + 1, s, c, q, len, steps =>
     if s.good && c != chRParen then
-      if stay && (s.get).1.good && (s.get).2.getD c = chQuote then
-        recoverInner stay fuel (s.get).1 chQuote (!q) (len + 1) (steps + 1)
-      else if stay && (s.get).1.good && (s.get).2.getD c = chSemi && !q then
+      if stay && quotes && (s.get).1.good && (s.get).2.getD c = chQuote then
+        recoverInner stay quotes fuel (s.get).1 chQuote (!q) (len + 1) (steps + 1)
+      else if stay && (s.get).1.good && (s.get).2.getD c = chSemi && (!quotes || !q) then
         .ok ((s.get).1.putback chSemi, chSemi, q, true, len + 1, steps + 1)
-      else recoverInner stay fuel (s.get).1 ((s.get).2.getD c) q (len + 1) (steps + 1)
+      else recoverInner stay quotes fuel (s.get).1 ((s.get).2.getD c) q (len + 1) (steps + 1)
     else .ok (s, c, q, false, len, steps)
 
 /-- the outer loop `while( in.good() && !foundEnd )`: after a `)`, `in >> ws; in.get( c );` and a `;` ends the scan (`pb`,
 regenerated: it is put back for the caller).  `sev` 1: the end was found. -/
-def recoverOuter (stay pb : Bool) : Nat → IS → Byte → Bool → Nat → Nat → Out LoopRes
+def recoverOuter (stay quotes pb : Bool) : Nat → IS → Byte → Bool → Nat → Nat → Out LoopRes
   | 0, _, _, _, _, _ => .outOfFuel
   | fuel + 1, s, c, q, len, steps =>
     if !s.good then .ok ⟨s, 0, len, steps⟩ else
-    match recoverInner stay (fuel + 1) s c q len steps with
+    match recoverInner stay quotes (fuel + 1) s c q len steps with
     | .ok (s1, c1, q1, fnd, len1, steps1) =>
       if fnd then .ok ⟨s1, 1, len1, steps1⟩
       else if s1.good && c1 == chRParen then
         if (s1.ws.get).2.getD c1 = chSemi then
           .ok ⟨if pb then (s1.ws.get).1.putback chSemi else (s1.ws.get).1, 1, len1 + 1, steps1 + 1⟩
-        else recoverOuter stay pb fuel (s1.ws.get).1 ((s1.ws.get).2.getD c1)
-          (if stay && (s1.ws.get).1.good && (s1.ws.get).2.getD c1 = chQuote then !q1 else q1) (len1 + 1) (steps1 + 1)
-      else recoverOuter stay pb fuel s1 c1 q1 len1 (steps1 + 1)
+        else recoverOuter stay quotes pb fuel (s1.ws.get).1 ((s1.ws.get).2.getD c1)
+          (if stay && quotes && (s1.ws.get).1.good && (s1.ws.get).2.getD c1 = chQuote then !q1 else q1) (len1 + 1) (steps1 + 1)
+      else recoverOuter stay quotes pb fuel s1 c1 q1 len1 (steps1 + 1)
     | .overflow i c => .overflow i c
     | .outOfFuel => .outOfFuel
 
 /-- `in.clear()` first; `c` is the character that made `STEPread` give up -/
-def recoveryScan (stay pb : Bool) (fuel : Nat) (s : IS) (c : Byte) : Out LoopRes := recoverOuter stay pb fuel s.clear c false 0 0
+def recoveryScan (stay quotes pb : Bool) (fuel : Nat) (s : IS) (c : Byte) : Out LoopRes :=
+  recoverOuter stay quotes pb fuel s.clear c false 0 0
 
 /-- `SDAI_Application_instance::STEPread` of an entity without attributes: `in >> ws; in >> c;` (a character other than `(`
 is put back), `ReadTokenSeparator`, `in >> c` — a `)` ends the read (`sev` 1), anything else goes to the recovery scan with that `c` and
 the read reports an error (`sev` 0) -/
-def stepReadNoAttrs (stay pb cm : Bool) (iters fuel : Nat) (s : IS) : Out LoopRes :=
+def stepReadNoAttrs (stay quotes pb cm : Bool) (iters fuel : Nat) (s : IS) : Out LoopRes :=
   match readTokenSeparator cm iters fuel
       (if (s.ws.extract).2.getD 0 = 40 then (s.ws.extract).1 else (s.ws.extract).1.putback ((s.ws.extract).2.getD 0)) with
   | .ok r =>
     if (r.s.extract).2.getD ((s.ws.extract).2.getD 0) = chRParen then .ok ⟨(r.s.extract).1, 1, 0, r.steps + 1⟩
     else
-      match recoveryScan stay pb fuel (r.s.extract).1 ((r.s.extract).2.getD ((s.ws.extract).2.getD 0)) with
+      match recoveryScan stay quotes pb fuel (r.s.extract).1 ((r.s.extract).2.getD ((s.ws.extract).2.getD 0)) with
       | .ok r2 => .ok ⟨r2.s, 0, r2.len, r.steps + 1 + r2.steps⟩
       | o => o
   | o => o
